@@ -2,6 +2,7 @@ import PercevalModel.Proto
 import PercevalModel.Model.C07
 import PercevalModel.Model.C07SV
 import PercevalModel.Model.C07Sel
+import PercevalModel.Model.C07Det
 import PercevalModel.SimProto
 
 open Lean PM PM.Proto PM.Fock PM.C07
@@ -102,6 +103,25 @@ def selOfJson (j : Json) (M : ℕ) : Except String Sel := do
   if (hs.map (·.1)).eraseDups.length ≠ hs.length then throw "duplicate herald mode"
   return { heralds := hs, ps := ← PM.SimProto.psOfJson (← j.getObjVal? "ps"),
            minDet := ← natOf j "minDet", keep := ← boolOf j "keep" }
+
+/-- one detector: `"none"`, `"pnr"`, `"thr"` or `{"rows": [[[count, "p"], …], …]}` (row n = `detect(n)`) -/
+def detOfJson (need : ℕ) (j : Json) : Except String DetK := do
+  match j with
+  | .str "none" => return .none
+  | .str "pnr" => return .pnr
+  | .str "thr" => return .thr
+  | _ =>
+    let rows ← (← arrOf j "rows").toList.mapM fun r => do
+      (← r.getArr?).toList.mapM fun e => do
+        match e with
+        | .arr #[c, w] =>
+          return (← c.getNat?, ← ratOfJson w)
+        | _ => throw "bad detector row"
+    if rows.length ≤ need then throw "detector row missing"
+    return .ppnr rows
+
+def dtypeJson : DType → Json
+  | .pnr => "PNR" | .thr => "Threshold" | .ppnr => "PPNR" | .mixed => "Mixed"
 
 def nzDistJson (d : Dist.D) : Json := distJson (d.filter fun p => p.2 != 0)
 
@@ -232,6 +252,33 @@ def handle (j : Json) : Json :=
           ("mass", ratToJson (Dist.mass (fullDist U (prepareInput M N s))))]
       return Json.mkObj [("M", toJson M), ("N", toJson N), ("filter", toJson σ.filter),
         ("runs", Json.arr runs.toArray)]
+    | "probsdet" =>
+      -- detectors below the loss layer: `_prepare_detectors_impl`, `simulate_detectors`, then `_postprocess_bsd`
+      let (comps, M, N) ← programOfJson j
+      let U := (prodV N (rewrite M comps)).toMatrix
+      let inputs ← (← arrOf j "inputs").toList.mapM natList
+      if inputs.any (·.length ≠ M) then throw "input size"
+      let σ ← selOfJson (← j.getObjVal? "sel") M
+      let need := (inputs.map List.sum).foldl max 0
+      let ds ← (← arrOf j "dets").toList.mapM (detOfJson need)
+      if ds.length ≠ M then throw "AssertionError"
+      let runs := inputs.map fun s =>
+        let svd := lossDetSvd σ ds U M s
+        let dm := detectMarginal ds U M s
+        let enl := detectAll ((padDetectors M N ds).map DetK.kern) (fullDist U (prepareInput M N s))
+        Json.mkObj [("results", distJson (marginal svd.1)), ("logical", ratToJson svd.2.1),
+          ("physical", ratToJson svd.2.2),
+          -- the specification: detectors on the marginal distribution, then one conditioning
+          ("spec", distJson (marginal (SimSpec.conditioned σ.cond dm))),
+          ("specPhysical", ratToJson (SimSpec.physPerf σ.cond dm)),
+          ("specLogical", ratToJson (SimSpec.logicalPerf σ.cond dm)),
+          ("retained", ratToJson (Dist.mass (SimSpec.retained σ.cond dm))),
+          -- `detectors_see_only_original_modes` on the wire
+          ("commute", toJson (decide (marginal (postprocess M enl) = marginal dm))),
+          ("detMass", ratToJson (Dist.mass enl)),
+          ("mass", ratToJson (Dist.mass (fullDist U (prepareInput M N s))))]
+      return Json.mkObj [("M", toJson M), ("N", toJson N), ("filter", toJson σ.filter),
+        ("dtype", dtypeJson (detType (padDetectors M N ds))), ("runs", Json.arr runs.toArray)]
     | "layers" =>
       let k : Kinds := ⟨← boolOf j "lc", ← boolOf j "td", ← boolOf j "polar", ← boolOf j "ff"⟩
       return Json.mkObj [("layers", toJson (layers k))]
